@@ -48,6 +48,9 @@ type recWriter struct {
 	calls  []recCall
 	done   int
 	result error
+	// logBucket, when valid, is the organization's _monitoring bucket: writes to it answer logResult
+	logBucket platform.ID
+	logResult error
 }
 
 type recCall struct {
@@ -62,6 +65,9 @@ func (w *recWriter) WritePoints(_ context.Context, org, bucket platform.ID, pts 
 	copy(cp, pts)
 	w.calls = append(w.calls, recCall{org, bucket, cp})
 	w.done++
+	if w.logBucket.Valid() && bucket == w.logBucket {
+		return w.logResult
+	}
 	return w.result
 }
 
